@@ -40,6 +40,28 @@ func init() {
 // worker process is also the first use of the tables in that process, so lazily initialised
 // shared state is exercised (and the workers are race-built).
 func c17ConcurrentBurst(res *fw.Result, idx int) {
+	// The first case of a worker process is the first use of the package in that process. Which
+	// function comes first must not matter: odd cases start with the text complement, even ones
+	// with translation (the tables must not depend on another function having run before).
+	if idx%2 == 1 {
+		all := "ACGTRYSWKMBDHVNacgtrykmswbdhvn-?"
+		comp := alphabet.Complement(all)
+		rc := alphabet.ReverseComplement(all)
+		res.Evals += 2
+		res.Count("complement_first_cases", 1)
+		bad := len(comp) != len(all) || len(rc) != len(all)
+		for i := 0; i < len(all) && !bad; i++ {
+			a, _ := model.SetOf(all[i], false)
+			b, ok1 := model.SetOf(comp[i], false)
+			d, ok2 := model.SetOf(rc[len(all)-1-i], false)
+			if !ok1 || !ok2 || b != model.ComplementSet(a) || d != model.ComplementSet(a) {
+				bad = true
+			}
+		}
+		if bad {
+			res.Fail("complement-before-translate", fmt.Sprintf("Complement / ReverseComplement called before any Translate in this process: Complement(%q) = %q, ReverseComplement = %q", all, comp, rc), nil, nil)
+		}
+	}
 	var wg sync.WaitGroup
 	errs := make(chan string, 64)
 	start := make(chan struct{})
